@@ -156,7 +156,13 @@ def build(d, args):
         if where == 3:
             os.chdir(d)
             main = 'main.lua'
-        rcode = tool.main(['build', out, '--lua', main] + args)
+        # every fifth case runs under --debug (what is logged may not change what is built)
+        from pico8 import util
+        dbg = ['--debug'] if zlib.crc32(repr(sorted(args)).encode() + open(os.path.join(d, 'main.lua'), 'rb').read()) % 5 == 0 else []
+        try:
+            rcode = tool.main(dbg + ['build', out, '--lua', main] + args)
+        finally:
+            util.set_verbosity(util.VERBOSITY_QUIET)
         return rcode, None, out
     except BaseException as e:
         return None, e, out
